@@ -142,6 +142,9 @@ type Op struct {
 	Set  int   `json:"set"`
 	K    int64 `json:"k"`
 	E    int   `json:"e"`
+	// NF: a non-finite value instead of K*2^E, float64 instruments only:
+	// 1 +Inf, 2 NaN, 3 -Inf (-Inf only where negative values are allowed).
+	NF int `json:"nf,omitempty"`
 }
 
 // Cycle is a batch of synchronous measurements, the observations every
@@ -367,6 +370,13 @@ func normalize(c Case) Case {
 		}
 		if op.E < -4 {
 			op.E = -4
+		}
+		op.NF = ((op.NF % 4) + 4) % 4
+		if !o.Insts[op.Inst].Float {
+			op.NF = 0
+		}
+		if op.NF == 3 && nonNegative(k) {
+			op.NF = 1
 		}
 		return op, true
 	}
@@ -803,7 +813,21 @@ func genValue(t *rapid.T, kind int) (int64, int) {
 	return int64(rapid.IntRange(lo, 9).Draw(t, "k")), e
 }
 
+// genNF: in the cases that use non-finite values at all, about one float64
+// measurement in ten is +Inf, NaN or -Inf.
+func genNF(t *rapid.T, enabled bool, in Inst) int {
+	if !enabled || !in.Float || rapid.IntRange(0, 9).Draw(t, "nonfinite") != 0 {
+		return 0
+	}
+	nf := rapid.SampledFrom([]int{1, 1, 2, 2, 3}).Draw(t, "nf")
+	if nf == 3 && nonNegative(in.Kind) {
+		nf = 1
+	}
+	return nf
+}
+
 func genCycles(t *rapid.T, c *Case, maxOps, maxObs int) {
+	nonFinite := rapid.IntRange(0, 2).Draw(t, "use_nonfinite") == 0
 	var syncI, obsI []int
 	for i, in := range c.Insts {
 		if observable(in.Kind) {
@@ -831,6 +855,7 @@ func genCycles(t *rapid.T, c *Case, maxOps, maxObs int) {
 					op.Set = rapid.IntRange(0, n-1).Draw(t, "set")
 				}
 				op.K, op.E = genValue(t, c.Insts[op.Inst].Kind)
+				op.NF = genNF(t, nonFinite, c.Insts[op.Inst])
 				cyc.Ops = append(cyc.Ops, op)
 			}
 		}
@@ -844,6 +869,7 @@ func genCycles(t *rapid.T, c *Case, maxOps, maxObs int) {
 			for _, s := range sets {
 				op := Op{Inst: oi, Set: s}
 				op.K, op.E = genValue(t, c.Insts[oi].Kind)
+				op.NF = genNF(t, nonFinite, c.Insts[oi])
 				cyc.Obs = append(cyc.Obs, op)
 			}
 		}
